@@ -89,9 +89,15 @@ func (t *IterableType) IsAssignable(o px.Type, g px.Guard) bool {
 		et = NewIntegerType(0, 255)
 	case *HashType:
 		et = o.EntryType()
-	case *stringType, *vcStringType, *scStringType:
+	case *stringType, *vcStringType, *scStringType, *EnumType, *PatternType:
 		et = OneCharStringType
+	case *IterableType:
+		et = o.typ
 	case *TupleType:
+		if len(o.types) == 0 {
+			// a tuple without types accepts elements of any type
+			return o.givenOrActualSize.max == 0 || GuardedIsAssignable(t.typ, anyTypeDefault, g)
+		}
 		return allAssignableTo(o.types, t.typ, g)
 	default:
 		return false
@@ -102,6 +108,9 @@ func (t *IterableType) IsAssignable(o px.Type, g px.Guard) bool {
 func (t *IterableType) IsInstance(o px.Value, g px.Guard) bool {
 	if iv, ok := o.(px.Indexed); ok {
 		return GuardedIsAssignable(t.typ, iv.ElementType(), g)
+	}
+	if _, ok := o.(*Binary); ok {
+		return GuardedIsAssignable(t.typ, NewIntegerType(0, 255), g)
 	}
 	return false
 }
